@@ -152,17 +152,27 @@ Definition params_of (fx : bool) : list params :=
     map (fun pl => {| fixed := fx; is_write := w; remote := r; pre := pr; ready0 := rd; fail := fl; pollable := pl |})
         bools) fails) bools) bools) bools) bools.
 
+Lemma in_bools b : In b bools.
+Proof. destruct b; simpl; auto. Qed.
+Lemma in_fails f : In f fails.
+Proof. destruct f as [[| |]|]; simpl; auto 6. Qed.
+
 Lemma params_of_complete p : In p (params_of (fixed p)).
 Proof.
-  destruct p as [fx w r pr rd fl pl]. simpl fixed.
-  destruct fx, w, r, pr, rd, pl; destruct fl as [[| |]|]; vm_compute; tauto.
+  destruct p as [fx w r pr rd fl pl]. simpl fixed. unfold params_of.
+  apply in_flat_map. exists w. split; [apply in_bools|].
+  apply in_flat_map. exists r. split; [apply in_bools|].
+  apply in_flat_map. exists pr. split; [apply in_bools|].
+  apply in_flat_map. exists rd. split; [apply in_bools|].
+  apply in_flat_map. exists fl. split; [apply in_fails|].
+  apply in_map_iff. exists pl. split; [reflexivity|apply in_bools].
 Qed.
 
-Lemma check_all P fx : forallb (check P) (params_of fx) = true ->
-  forall p, fixed p = fx -> forall c, areach (init_core p) c -> P c = true.
+Lemma check_all (P : params -> core -> bool) fx : forallb (fun p => check (P p) p) (params_of fx) = true ->
+  forall p, fixed p = fx -> forall c, areach (init_core p) c -> P p c = true.
 Proof.
   intros H p Hp c Hr. rewrite forallb_forall in H. subst fx.
-  apply (check_sound P p); auto. apply H. apply params_of_complete.
+  apply (check_sound (P p) p); auto. apply H. apply params_of_complete.
 Qed.
 
 (* ======================= the fixed variant: theorems ========================================== *)
@@ -217,14 +227,254 @@ Definition P_stuck (c : core) : bool :=
   then is_completed c || (parked_ok c && Nat.eqb (xfer c) 0)
   else true.
 
-Definition P_fixed (c : core) : bool := P_safe c && P_result c && P_stuck c.
+(* the five core thread steps never change who runs the callback, nor the parameters *)
+Definition asucc_core (s : core) : list core :=
+  osucc (step_io s) ++ osucc (step_take s) ++ osucc (step_deliver s) ++ osucc (step_starter s) ++
+  osucc (step_peer s).
+Definition rpc_eqb (a b : rpc) : bool := N.eqb (run_code a) (run_code b).
+Lemma rpc_eqb_eq a b : rpc_eqb a b = true -> a = b.
+Proof. destruct a as [|[]|], b as [|[]|]; simpl; intros; try reflexivity; discriminate. Qed.
+Definition P_runner (c : core) : bool := forallb (fun c' => rpc_eqb (runner c') (runner c)) (asucc_core c).
 
-Lemma fixed_checked : forallb (check P_fixed) (params_of true) = true.
+Definition params_eqb (a b : params) : bool :=
+  Bool.eqb (fixed a) (fixed b) && Bool.eqb (is_write a) (is_write b) && Bool.eqb (remote a) (remote b) &&
+  Bool.eqb (pre a) (pre b) && Bool.eqb (ready0 a) (ready0 b) && Bool.eqb (pollable a) (pollable b) &&
+  match fail a, fail b with
+  | None, None => true
+  | Some x, Some y => errk_eqb x y
+  | _, _ => false
+  end.
+Lemma params_eqb_eq a b : params_eqb a b = true -> a = b.
+Proof.
+  destruct a as [a1 a2 a3 a4 a5 a6 a7], b as [b1 b2 b3 b4 b5 b6 b7]. unfold params_eqb. simpl.
+  destruct a1, b1, a2, b2, a3, b3, a4, b4, a5, b5, a7, b7; simpl; try discriminate;
+    destruct a6 as [[| |]|], b6 as [[| |]|]; simpl; intros; try discriminate; reflexivity.
+Qed.
+
+Definition P_fixed (p : params) (c : core) : bool :=
+  P_safe c && P_result c && P_stuck c && P_runner c && params_eqb (par c) p.
+
+Lemma fixed_checked : forallb (fun p => check (P_fixed p) p) (params_of true) = true.
 Proof. vm_compute. reflexivity. Qed.
 
 Theorem fixed_core p nstop (sched : list nat) :
   fixed p = true ->
-  P_fixed (co (fst (run step sched (init p nstop, [])))) = true.
+  P_fixed p (co (fst (run step sched (init p nstop, [])))) = true.
 Proof.
   intros Hf. eapply (check_all P_fixed true fixed_checked p Hf). apply run_areach.
 Qed.
+
+Ltac split_and H :=
+  repeat match type of H with
+         | (_ && _) = true => let H1 := fresh H in apply andb_true_iff in H; destruct H as [H H1]
+         end.
+
+(* ---- the theorems, in Prop ------------------------------------------------------------------- *)
+Section Fixed.
+  Variables (p : params) (nstop : nat) (sched : list nat).
+  Hypothesis Hfixed : fixed p = true.
+  Let s := fst (run step sched (init p nstop, [])).
+  Let c := co s.
+
+  Lemma fixed_parts : P_safe c = true /\ P_result c = true /\ P_stuck c = true /\ P_runner c = true /\ par c = p.
+  Proof.
+    pose proof (fixed_core p nstop sched Hfixed) as H. fold s in H. fold c in H. unfold P_fixed in H.
+    split_and H. repeat split; auto. now apply params_eqb_eq.
+  Qed.
+
+  (* each read/write completes at most once *)
+  Theorem io_at_most_once : length (completed c) <= 1.
+  Proof.
+    destruct fixed_parts as (H & _). unfold P_safe in H. split_and H. now apply Nat.leb_le.
+  Qed.
+
+  (* no access to the operation after its completion; epoll_wait never hands back a pointer to a
+     completed operation or to a completion that was already consumed; no null execute_ is called *)
+  Theorem nothing_touches_after_completion : uaf c = false /\ stale c = false /\ crashed c = false.
+  Proof.
+    destruct fixed_parts as (H & _). unfold P_safe in H. split_and H.
+    repeat split; now apply negb_true_iff.
+  Qed.
+
+  (* at the operation's completion (and ever after) no epoll registration mentions it, neither of
+     its queue items is queued anywhere, no thread is inside its code and its stop callback is
+     neither registered nor running *)
+  Theorem no_stale_registration :
+    completed c <> [] ->
+    reg c = false /\ batch c = [] /\ localq c = [] /\ remoteq c = [] /\ cenq c = 0 /\ denq c = 0 /\
+    io c = IIdle /\ runner c = RNone /\ starter c = TFin /\ cb c <> CbReg /\ cb c <> CbRunning.
+  Proof.
+    intros Hc. destruct fixed_parts as (H & _). unfold P_safe in H. split_and H.
+    unfold is_completed in H0. destruct (completed c) eqn:E; [congruence|]. split_and H0.
+    unfold no_items in *.
+    destruct (batch c), (localq c), (remoteq c); try discriminate.
+    destruct (io c); try discriminate. destruct (runner c); try discriminate.
+    destruct (starter c); try discriminate.
+    apply negb_true_iff in H0. apply Nat.eqb_eq in H9, H8.
+    repeat split; auto; destruct (cb c); try discriminate; congruence.
+  Qed.
+
+  (* the true result: value iff the bytes were transferred (at most once, never transferred and
+     dropped), the error is the errno of the failing syscall, done only after a stop request *)
+  Theorem io_true_result :
+    xfer c <= 1 /\
+    match completed c with
+    | [] => True
+    | [RValue] => xfer c = 1
+    | [RError k] => xfer c = 0 /\ fail p = Some k
+    | [RDone] => xfer c = 0 /\ stopped c = true
+    | _ => False
+    end.
+  Proof.
+    destruct fixed_parts as (_ & H & _ & _ & Hp). unfold P_result in H. split_and H. rewrite Hp in H0.
+    split; [now apply Nat.leb_le|].
+    destruct (completed c) as [|[|k|] [|]]; auto; try discriminate.
+    - now apply Nat.eqb_eq.
+    - split_and H0. apply Nat.eqb_eq in H0. split; auto.
+      destruct (fail p) as [k'|]; [|discriminate]. destruct k, k'; try discriminate; reflexivity.
+    - split_and H0. apply Nat.eqb_eq in H0. auto.
+  Qed.
+End Fixed.
+
+(* ---- progress: no stuck state short of completion (or a legitimate park) ----------------------- *)
+Lemma in_set_nth {A} (l : list A) i x y : nth_error l i = Some x -> In y (set_nth i y l).
+Proof. revert i; induction l; destruct i; simpl; intros; try discriminate; auto. Qed.
+
+Lemma in_set_nth_other {A} (l : list A) i x y z :
+  nth_error l i = Some x -> x <> z -> In z l -> In z (set_nth i y l).
+Proof.
+  revert i; induction l; destruct i; simpl; intros H Hn Hin; try discriminate.
+  - inversion H; subst. destruct Hin; [congruence|auto].
+  - destruct Hin; eauto.
+Qed.
+
+Lemma step_run_some c : runner c <> RNone -> step_run c <> None.
+Proof.
+  unfold step_run. destruct (runner c) as [|k|]; try congruence.
+  destruct (step_cb k c) as [[s1 e] [k'|]]; discriminate.
+Qed.
+
+Lemma step_set_runner c c' e r : step_set c = (c', e, r) ->
+  (r = true -> runner c' <> RNone) /\ (r = false -> runner c' = runner c).
+Proof.
+  unfold step_set. destruct (stopped c); [intros H; inversion H; subst; split; [discriminate|auto]|].
+  destruct (cb c); intros H; inversion H; subst; simpl; split; auto; discriminate.
+Qed.
+
+(* whoever runs the callback is one of the stoppers *)
+Theorem runner_is_a_stopper p nstop (sched : list nat) :
+  fixed p = true ->
+  let s := fst (run step sched (init p nstop, [])) in
+  runner (co s) <> RNone -> In KRun (sts s).
+Proof.
+  intros Hf.
+  assert (forall sched, let s := fst (run step sched (init p nstop, [])) in
+          areach (init_core p) (co s) /\ (runner (co s) <> RNone -> In KRun (sts s))) as H.
+  { intros sc. apply (run_invariant_state _ _ _ step
+      (fun s => areach (init_core p) (co s) /\ (runner (co s) <> RNone -> In KRun (sts s)))).
+    - intros s t s' e [Hr HJ] Hs. split; [eapply ar_step; eauto; eapply step_asucc; eauto|].
+      pose proof (check_all P_fixed true fixed_checked p Hf _ Hr) as HP. unfold P_fixed in HP. split_and HP.
+      unfold P_runner in HP1. rewrite forallb_forall in HP1.
+      unfold step in Hs. destruct t as [|[|[|[|[|i]]]]];
+        try (simpl in Hs;
+             match type of Hs with context[match ?x with _ => _ end] => destruct x as [[c' e']|] eqn:E end;
+             [inversion Hs; subst; clear Hs; simpl|discriminate];
+             assert (Hin : In c' (asucc_core (co s)))
+               by (unfold asucc_core; rewrite E; simpl; rewrite ?in_app_iff; simpl; auto 10);
+             apply HP1 in Hin; apply rpc_eqb_eq in Hin; rewrite Hin; exact HJ).
+      unfold step_stopper in Hs. destruct (nth_error (sts s) i) as [[| |]|] eqn:En; try discriminate.
+      + destruct (step_set (co s)) as [[c' e'] r] eqn:E. inversion Hs; subst; clear Hs. simpl.
+        destruct (step_set_runner _ _ _ _ E) as [H1 H2]. destruct r.
+        * intros _. eapply in_set_nth; eauto.
+        * rewrite (H2 eq_refl). intros Hn. eapply in_set_nth_other; eauto. discriminate.
+      + destruct (step_run (co s)) as [[c' e']|] eqn:E; [|discriminate]. inversion Hs; subst; clear Hs. simpl.
+        intros Hn. destruct (runner c'); [congruence| |]; eapply in_set_nth; eauto.
+    - simpl. split; [constructor|]. destruct (remote p); simpl; congruence. }
+  intros s. apply (H sched).
+Qed.
+
+(* io_exactly_once, progress half: when no thread can move, the operation has completed, or it is
+   legitimately parked (registered, descriptor not ready, no stop requested, nothing consumed) *)
+Theorem io_completes p nstop (sched : list nat) :
+  fixed p = true -> sane p = true ->
+  let s := fst (run step sched (init p nstop, [])) in
+  (forall t, step t s = None) ->
+  completed (co s) <> [] \/ (parked_ok (co s) = true /\ xfer (co s) = 0).
+Proof.
+  intros Hf Hsane s Hstuck.
+  destruct (fixed_parts p nstop sched Hf) as (_ & _ & HP & _ & Hpar). fold s in HP, Hpar.
+  assert (Hcore : forall t, t < 5 -> step_core t (co s) = None).
+  { intros t Ht. specialize (Hstuck t). unfold step in Hstuck.
+    destruct t as [|[|[|[|[|t]]]]]; try lia;
+      destruct (step_core _ (co s)) as [[c' e']|]; try discriminate; reflexivity. }
+  assert (Hrun : runner (co s) = RNone).
+  { destruct (runner (co s)) eqn:E; auto; exfalso;
+      (assert (Hn : runner (co s) <> RNone) by congruence;
+       pose proof (runner_is_a_stopper p nstop sched Hf Hn) as Hin; fold s in Hin;
+       apply In_nth_error in Hin; destruct Hin as [i Hi];
+       specialize (Hstuck (5 + i)); simpl in Hstuck; unfold step_stopper in Hstuck; rewrite Hi in Hstuck;
+       pose proof (step_run_some _ Hn) as Hs; destruct (step_run (co s)) as [[c' e']|]; [discriminate|congruence]). }
+  unfold P_stuck in HP. rewrite Hpar, Hsane in HP.
+  assert (Hq : core_quiet (co s) = true).
+  { unfold core_quiet.
+    pose proof (Hcore 0 ltac:(lia)) as H0. pose proof (Hcore 1 ltac:(lia)) as H1.
+    pose proof (Hcore 2 ltac:(lia)) as H2. pose proof (Hcore 3 ltac:(lia)) as H3.
+    pose proof (Hcore 4 ltac:(lia)) as H4. simpl in H0, H1, H2, H3, H4. rewrite H0, H1, H2, H3, H4.
+    unfold step_run. rewrite Hrun. reflexivity. }
+  rewrite Hq in HP. simpl in HP. apply orb_true_iff in HP. destruct HP as [HP|HP].
+  - left. unfold is_completed in HP. destruct (completed (co s)); [discriminate|congruence].
+  - right. apply andb_true_iff in HP. destruct HP as [HP1 HP2]. apply Nat.eqb_eq in HP2. auto.
+Qed.
+
+(* ======================= the code as written: refuted ========================================= *)
+Definition aw (w rem pr rd : bool) (fl : option errkind) (pl : bool) : params :=
+  {| fixed := false; is_write := w; remote := rem; pre := pr; ready0 := rd; fail := fl; pollable := pl |}.
+
+(* finding 6: started with the stop token already requested, the read completes with done while the
+   kernel still holds the registration added after the cancellation removed nothing ... *)
+Theorem no_stale_registration_refuted :
+  exists p nstop sched, fixed p = false /\
+    let c := co (fst (run step sched (init p nstop, []))) in
+    completed c = [RDone] /\ reg c = true.
+Proof. exists (aw false false true false None true), 0, [0; 0; 0; 0; 0; 0; 0; 1; 0; 0]. vm_compute. auto. Qed.
+
+(* ... also without pre-cancellation: a stop request between the construction of the callback and
+   the EPOLL_CTL_ADD ... *)
+Theorem no_stale_registration_refuted_race :
+  exists p sched, fixed p = false /\ pre p = false /\
+    let c := co (fst (run step sched (init p 1, []))) in
+    completed c = [RDone] /\ reg c = true.
+Proof. exists (aw false false false false None true), [0; 0; 5; 5; 5; 0; 5; 5; 1; 0; 0]. vm_compute. auto. Qed.
+
+(* ... and when the descriptor becomes ready afterwards epoll_wait returns the dangling pointer *)
+Theorem nothing_touches_refuted_stale :
+  exists p nstop sched, fixed p = false /\
+    let c := co (fst (run step sched (init p nstop, []))) in
+    completed c = [RDone] /\ stale c = true.
+Proof. exists (aw false false true false None true), 0, [0; 0; 0; 0; 0; 0; 0; 1; 0; 0; 4; 2]. vm_compute. auto. Qed.
+
+(* finding 8: a failing readv (EISDIR on a directory) parks the operation for ever *)
+Theorem io_completes_refuted :
+  exists p nstop sched, fixed p = false /\ sane p = true /\
+    let s := fst (run step sched (init p nstop, [])) in
+    (forall t, step t s = None) /\ completed (co s) = [] /\ parked_ok (co s) = false /\ errs (co s) = [KOther].
+Proof.
+  exists (aw false false false false (Some KOther) false), 0, [0; 0; 0; 4]. repeat split.
+  intros t. do 5 (destruct t as [|t]; [reflexivity|]). vm_compute. destruct t; reflexivity.
+Qed.
+
+(* finding 8, second half: when the descriptor can be polled the error reported is EPERM whatever
+   the syscall's errno was *)
+Theorem io_true_result_refuted :
+  exists p nstop sched, fixed p = false /\
+    let c := co (fst (run step sched (init p nstop, []))) in
+    fail p = Some KOther /\ completed c = [RError KPerm].
+Proof. exists (aw false false false true (Some KOther) true), 0, [0; 0; 0; 2; 0; 0; 0; 0; 0; 0]. vm_compute. auto. Qed.
+
+(* finding 15: the done path never destroys the stop callback: the stopper stores
+   callbackCompleted_ into the operation after it completed (and may have been freed) *)
+Theorem nothing_touches_refuted_late_store :
+  exists p sched, fixed p = false /\
+    let c := co (fst (run step sched (init p 1, []))) in
+    completed c = [RDone] /\ uaf c = true.
+Proof. exists (aw false false false false None true), [0; 0; 0; 5; 5; 5; 5; 5; 1; 0; 0; 5]. vm_compute. auto. Qed.
